@@ -605,10 +605,11 @@ PROPS = {
                 "vertex_panic_stage", "vertex_panic_sites", "vertex_panic_site_mem", "vertex_total_of_no_nan",
                 "vertex_result_spec", "run_panic", "tablesAt_panic", "stageClusters_panic", "stageVertex_panic",
                 "Examples.xLawsAll", "Examples.evNaN_panics", "Examples.evOne_total"]],
-        harness=[("c09", ["dev", "release"]), ("c09b", ["dev"])],
+        harness=[("c09", ["dev", "release"]), ("c09b", ["dev"]), ("c19", ["dev"])],
+        needs_binaries=True,
         disagreement_is_failing_input=False,
         disagreement_failing_modules=["c09b"],
-        oracle_failing_regex=r"panic",
+        oracle_failing_regex=r"panic|rows for|failed on a valid run",
         level_text="Lean theorem: building a main event never panics, for every bank list, run number and HashMap order "
                    "(buildEvent_total: every unwrap/index site of try_from_banks incl. the i32 calibration arithmetic and slot "
                    "indices), composing the totality theorems of all decoders (C01); timestamp is total; the non-float panic "
@@ -630,7 +631,10 @@ PROPS = {
                    "the matching and become space points (observation recorded in DESIGN 13.3, not a violation of C09); "
                    "avalanches() and vertex() are run under catch_unwind in dev and release builds on random, extreme-valued "
                    "(i16::MIN/MAX samples, requested 0/1/511, all 79 channels, lengths around the delay) and simulated track "
-                   "events — sampling, labelled as such. Repaired defect F2 is reported again if it returns.",
+                   "events — sampling, labelled as such. The last clause of the property (the vertex program emits a row for "
+                   "every event serial number) is checked on the real alpha-g-vertices binary by module c19 (one row per main "
+                   "event whatever events fail to assemble, thread counts 1/2/5/16). Repaired defect F2 is reported again if it "
+                   "returns.",
         technique="Lean 4 totality theorem over the compositional event model + adversarial sampling of the float pipeline "
                   "under catch_unwind (dev + release)",
         design_ref="DESIGN.md section 6, C09",
